@@ -8,6 +8,64 @@ From LogosV Require Import Engine.Model Engine.Cert Engine.GraphBuild Engine.Cer
 Import ListNotations.
 Local Open Scope N_scope.
 
+(* ---------- the argument over an abstract relation ---------- *)
+Definition StatesRel (g1 g2 : graph) (Rel : sid -> sid -> Prop) (s1 s2 : sid) : Prop :=
+  exists a b, gfind g1 s1 = Some a /\ gfind g2 s2 = Some b /\
+    (forall off c, record a off c = record b off c) /\
+    partial_mode_test a = partial_mode_test b /\
+    (forall x, byte_ok x -> match edge_first (g_edges a) x, edge_first (g_edges b) x with
+                            | Some t1, Some t2 => Rel t1 t2
+                            | None, None => True
+                            | _, _ => False end) /\
+    match g_eoi a, g_eoi b with
+    | Some t1, Some t2 => Rel t1 t2
+    | None, None => True
+    | _, _ => False end.
+
+Section GsimAbs.
+  Variables (g1 g2 : graph) (Rel : sid -> sid -> Prop).
+  Hypothesis Hrel : forall s1 s2, Rel s1 s2 -> StatesRel g1 g2 Rel s1 s2.
+
+  Lemma rel_at_eoi isprefix start : forall hops s1 s2 off c,
+    Rel s1 s2 -> (off = start -> s1 = g_root g1 /\ s2 = g_root g2) -> start <= off ->
+    at_eoi g1 isprefix start hops s1 off c = at_eoi g2 isprefix start hops s2 off c.
+  Proof.
+    induction hops as [|h IH]; intros s1 s2 off c HR Hroot Hle;
+      destruct (Hrel s1 s2 HR) as [a [b [Ea [Eb [Hrec [Hpm [_ Heoi]]]]]]];
+      cbn [at_eoi]; rewrite Ea, Eb, Hrec, Hpm.
+    - assert (Hr : (s1 =? g_root g1)%positive && (off =? start) = (s2 =? g_root g2)%positive && (off =? start)).
+      { destruct (N.eqb_spec off start) as [E|E]; [|rewrite !andb_false_r; reflexivity].
+        destruct (Hroot E) as [-> ->]. rewrite !Pos.eqb_refl. reflexivity. }
+      rewrite Hr. destruct (g_eoi a), (g_eoi b); try contradiction; reflexivity.
+    - assert (Hr : (s1 =? g_root g1)%positive && (off =? start) = (s2 =? g_root g2)%positive && (off =? start)).
+      { destruct (N.eqb_spec off start) as [E|E]; [|rewrite !andb_false_r; reflexivity].
+        destruct (Hroot E) as [-> ->]. rewrite !Pos.eqb_refl. reflexivity. }
+      rewrite Hr. destruct (g_eoi a) as [t1|], (g_eoi b) as [t2|]; try contradiction; [|reflexivity].
+      destruct (partial_mode_test b && isprefix); [reflexivity|].
+      destruct ((s2 =? g_root g2)%positive && (off =? start)); [reflexivity|].
+      apply IH; [exact Heoi|intros E; lia|lia].
+  Qed.
+
+  Lemma rel_walk isprefix start hops : forall rest s1 s2 off c,
+    bytes_ok rest -> Rel s1 s2 -> (off = start -> s1 = g_root g1 /\ s2 = g_root g2) -> start <= off ->
+    walk g1 isprefix start hops rest s1 off c = walk g2 isprefix start hops rest s2 off c.
+  Proof.
+    induction rest as [|x rest IH]; intros s1 s2 off c Hw HR Hroot Hle; cbn [walk].
+    - apply rel_at_eoi; assumption.
+    - inversion Hw as [|? ? Hx Hw']; subst.
+      destruct (Hrel s1 s2 HR) as [a [b [Ea [Eb [Hrec [_ [Hedges _]]]]]]].
+      rewrite Ea, Eb, Hrec. specialize (Hedges x Hx).
+      destruct (edge_first (g_edges a) x) as [t1|], (edge_first (g_edges b) x) as [t2|]; try contradiction; [|reflexivity].
+      apply IH; [exact Hw'|exact Hedges|intros E; lia|lia].
+  Qed.
+
+  Theorem rel_attempt isprefix start hops rest : Rel (g_root g1) (g_root g2) -> bytes_ok rest ->
+    walk g1 isprefix start hops rest (g_root g1) start None = walk g2 isprefix start hops rest (g_root g2) start None.
+  Proof.
+    intros Hroot Hw. apply rel_walk; [exact Hw|exact Hroot|intros _; split; reflexivity|lia].
+  Qed.
+End GsimAbs.
+
 Section Gsim.
   Variables (g1 g2 : graph) (R : pairing).
   Hypothesis Hok : gsim_ok g1 g2 R = true.
@@ -24,20 +82,9 @@ Section Gsim.
   Qed.
 
   (* what a related pair of states shares *)
-  Lemma gsim_states s1 s2 : inV R s1 s2 = true ->
-    exists a b, gfind g1 s1 = Some a /\ gfind g2 s2 = Some b /\
-      (forall off c, record a off c = record b off c) /\
-      partial_mode_test a = partial_mode_test b /\
-      (forall x, byte_ok x -> match edge_first (g_edges a) x, edge_first (g_edges b) x with
-                              | Some t1, Some t2 => inV R t1 t2 = true
-                              | None, None => True
-                              | _, _ => False end) /\
-      match g_eoi a, g_eoi b with
-      | Some t1, Some t2 => inV R t1 t2 = true
-      | None, None => True
-      | _, _ => False end.
+  Lemma gsim_states s1 s2 : inV R s1 s2 = true -> StatesRel g1 g2 (fun t1 t2 => inV R t1 t2 = true) s1 s2.
   Proof.
-    intros H. pose proof (gsim_pair_of s1 s2 H) as P. unfold gsim_pair in P.
+    intros H. pose proof (gsim_pair_of s1 s2 H) as P. unfold gsim_pair in P. unfold StatesRel.
     destruct (gfind g1 s1) as [a|]; [|discriminate]. destruct (gfind g2 s2) as [b|]; [|discriminate].
     apply andb_prop in P as [P Peoi]. apply andb_prop in P as [P Pedges]. apply andb_prop in P as [P Ppm].
     apply andb_prop in P as [Pearly Pacc].
@@ -54,44 +101,11 @@ Section Gsim.
     - destruct (g_eoi a), (g_eoi b); try discriminate; [exact Peoi|exact I].
   Qed.
 
-  Lemma gsim_at_eoi isprefix start : forall hops s1 s2 off c,
-    inV R s1 s2 = true -> (off = start -> s1 = g_root g1 /\ s2 = g_root g2) -> start <= off ->
-    at_eoi g1 isprefix start hops s1 off c = at_eoi g2 isprefix start hops s2 off c.
-  Proof.
-    induction hops as [|h IH]; intros s1 s2 off c HR Hroot Hle;
-      destruct (gsim_states s1 s2 HR) as [a [b [Ea [Eb [Hrec [Hpm [_ Heoi]]]]]]];
-      cbn [at_eoi]; rewrite Ea, Eb, Hrec, Hpm.
-    - assert (Hr : (s1 =? g_root g1)%positive && (off =? start) = (s2 =? g_root g2)%positive && (off =? start)).
-      { destruct (N.eqb_spec off start) as [E|E]; [|rewrite !andb_false_r; reflexivity].
-        destruct (Hroot E) as [-> ->]. rewrite !Pos.eqb_refl. reflexivity. }
-      rewrite Hr. destruct (g_eoi a), (g_eoi b); try contradiction; reflexivity.
-    - assert (Hr : (s1 =? g_root g1)%positive && (off =? start) = (s2 =? g_root g2)%positive && (off =? start)).
-      { destruct (N.eqb_spec off start) as [E|E]; [|rewrite !andb_false_r; reflexivity].
-        destruct (Hroot E) as [-> ->]. rewrite !Pos.eqb_refl. reflexivity. }
-      rewrite Hr. destruct (g_eoi a) as [t1|], (g_eoi b) as [t2|]; try contradiction; [|reflexivity].
-      destruct (partial_mode_test b && isprefix); [reflexivity|].
-      destruct ((s2 =? g_root g2)%positive && (off =? start)); [reflexivity|].
-      apply IH; [exact Heoi|intros E; lia|lia].
-  Qed.
-
-  Lemma gsim_walk isprefix start hops : forall rest s1 s2 off c,
-    bytes_ok rest -> inV R s1 s2 = true -> (off = start -> s1 = g_root g1 /\ s2 = g_root g2) -> start <= off ->
-    walk g1 isprefix start hops rest s1 off c = walk g2 isprefix start hops rest s2 off c.
-  Proof.
-    induction rest as [|x rest IH]; intros s1 s2 off c Hw HR Hroot Hle; cbn [walk].
-    - apply gsim_at_eoi; assumption.
-    - inversion Hw as [|? ? Hx Hw']; subst.
-      destruct (gsim_states s1 s2 HR) as [a [b [Ea [Eb [Hrec [_ [Hedges _]]]]]]].
-      rewrite Ea, Eb, Hrec. specialize (Hedges x Hx).
-      destruct (edge_first (g_edges a) x) as [t1|], (edge_first (g_edges b) x) as [t2|]; try contradiction; [|reflexivity].
-      apply IH; [exact Hw'|exact Hedges|intros E; lia|lia].
-  Qed.
-
   (* the two graphs agree on every attempt, for any hop fuel *)
   Theorem gsim_attempt isprefix start hops rest : bytes_ok rest ->
     walk g1 isprefix start hops rest (g_root g1) start None = walk g2 isprefix start hops rest (g_root g2) start None.
   Proof.
-    intros Hw. apply gsim_walk; [exact Hw|exact gsim_root|intros _; split; reflexivity|lia].
+    intros Hw. exact (rel_attempt g1 g2 (fun t1 t2 => inV R t1 t2 = true) gsim_states isprefix start hops rest gsim_root Hw).
   Qed.
 End Gsim.
 
